@@ -379,7 +379,7 @@ Qed.
 
 (** ** -r *)
 Definition is_meta (l : line) : bool :=
-  match l with LData _ | LGarbage => false | _ => true end.
+  match l with LData _ => false | _ => true end.
 
 Lemma rewrite_keeps_meta : forall sel f rs, filter is_meta (rewrite_from sel rs f) = filter is_meta f.
 Proof.
@@ -389,13 +389,11 @@ Proof.
 Qed.
 
 Lemma rewrite_nothing_selected : forall f rs,
-  ~ In LGarbage f -> rewrite_from (fun _ => false) rs f = f.
+  rewrite_from (fun _ => false) rs f = f.
 Proof.
-  induction f as [|l f IH]; intros rs H; [reflexivity|]. simpl.
-  assert (Hf : ~ In LGarbage f) by (intro; apply H; right; assumption).
-  destruct l; try (rewrite IH by assumption; reflexivity).
-  - destruct (nth_error rs (m_rid m)); rewrite IH by assumption; reflexivity.
-  - exfalso. apply H. left. reflexivity.
+  induction f as [|l f IH]; intros rs; [reflexivity|]. simpl.
+  destruct l; try (rewrite IH; reflexivity).
+  destruct (nth_error rs (m_rid m)); rewrite IH; reflexivity.
 Qed.
 
 (* the measurement lines that remain are those of runs not selected, in order *)
